@@ -1008,6 +1008,20 @@ func (fv *FuncVerifier) callWrites(env *Env, call *ast.CallExpr, ws *writeSet, d
 			}
 		}
 	}
+	// call through a local variable bound to a literal with a `modular` contract: it writes what that literal writes
+	if id, ok := ast.Unparen(call.Fun).(*ast.Ident); ok {
+		if lit := fv.modularLitOf(info.ObjectOf(id)); lit != nil {
+			if fv.inWrites == nil {
+				fv.inWrites = map[*ast.FuncLit]bool{}
+			}
+			if !fv.inWrites[lit] {
+				fv.inWrites[lit] = true
+				fv.collectWrites(&Env{info: fv.fn.Pkg.TypesInfo}, lit.Body, ws, depth+1)
+				delete(fv.inWrites, lit)
+			}
+			return
+		}
+	}
 	if _, isFunc := callee.(*types.Func); !isFunc && fv.fn.Contr != nil && fv.fn.Contr.Has("fnvalue-calllog", 0) {
 		pfx, exc := preservesOf(fv.fn.Contr)
 		ws.havocAllWith(pfx, exc)
